@@ -214,6 +214,65 @@ def run(ctx):
             except Exception as e:
                 viol("e2e-absent-group-invalid-json", matcher=margs, expression=key, text=p.stdout.decode("utf-8", "replace"), error=str(e))
 
+    # ONE context over a history of matches (round 4c): every worker goroutine re-uses one expression context for all
+    # lines of all sources, and line numbers restart at 1 in every source.  Many one-line files (every match is line 1
+    # of its source), files whose only hit is on the same line (a header at line 1, the hit at line 2), and a file
+    # read twice; `--workers 1` makes the worker's history the concatenation of the files, the default worker count
+    # and several readers mix them.  Every output line carries its own source, line number and input line, so the
+    # expectation is per line: the views must be those of THAT line, whatever the worker evaluated before.
+    hdir = os.path.join(work, "e2e_hist")
+    os.makedirs(hdir, exist_ok=True)
+    hwords = ["a", "b", "007", "1.5", "true", "TRUE", "x\"y", "\u00e9", "10", "zz", "q\\", "0"]
+    hfiles, hexpect = [], {}
+    n_one = 9 if ctx["tier"] == "quick" else 40
+    for i in range(n_one):
+        fp = os.path.join(hdir, "one%02d.txt" % i)
+        w1, w2 = hwords[i % len(hwords)], rnd.choice(hwords)
+        with open(fp, "w", encoding="utf-8") as f:
+            f.write("%s %s\n" % (w1, w2))
+        hfiles.append(fp)
+        hexpect[(fp, 1)] = (w1, w2)
+    for i in range(4):
+        fp = os.path.join(hdir, "hdr%02d.txt" % i)
+        w1, w2 = rnd.choice(hwords), hwords[(i + 3) % len(hwords)]
+        with open(fp, "w", encoding="utf-8") as f:
+            f.write("#header\n%s %s\n" % (w1, w2))
+        hfiles.append(fp)
+        hexpect[(fp, 2)] = (w1, w2)
+    hexpr = "{src}@@@{line}@@@{.}@@@{#}@@@{.#}@@@{#.}@@@{.}"
+    for wargs in (["--workers", "1"], ["--workers", "1", "--readers", "1"], ["--workers", "1", "--batch", "1"], [],
+                  ["--workers", "3", "--readers", "4"]):
+        for order in (hfiles, list(reversed(hfiles)), hfiles + hfiles[:3]):
+            p = subprocess.run([exe, "filter"] + wargs + ["-m", r"^(?P<w>\S+) (?P<n>\S+)$", "-e", hexpr] + order,
+                               stdout=subprocess.PIPE, stderr=subprocess.PIPE, timeout=120)
+            runs += 1
+            got = p.stdout.decode("utf-8", errors="surrogateescape").split("\n")[:-1]
+            if len(got) != len(order):
+                viol("e2e-history-line-count", flags=wargs, got=len(got), want=len(order), stderr=p.stderr.decode("utf-8", "replace")[-300:])
+                continue
+            for text in got:
+                parts = text.split("@@@")
+                if len(parts) != 7 or not parts[1].isdigit() or (parts[0], int(parts[1])) not in hexpect:
+                    viol("e2e-history-unexpected-line", flags=wargs, text=text)
+                    break
+                w1, w2 = hexpect[(parts[0], int(parts[1]))]
+                named = [("n", w2), ("w", w1)]
+                numbered = [("0", w1 + " " + w2), ("1", w1), ("2", w2)]
+                bad = None
+                for view, want in zip(parts[2:], [named, numbered, named + numbered, named + numbered, named]):
+                    try:
+                        pairs = json.loads(view, object_pairs_hook=list, parse_float=Fraction, strict=True)
+                    except Exception as e:
+                        bad = "invalid JSON: %s" % e
+                        break
+                    if len(pairs) != len(want) or not all(k == wk and _decodes(v, wc) for (k, v), (wk, wc) in zip(pairs, want)):
+                        bad = "members of another match"
+                        break
+                if bad:
+                    viol("e2e-history-view-of-another-match", flags=wargs, files=[os.path.basename(x) for x in order][:6],
+                         source=os.path.basename(parts[0]), line_number=parts[1], captures=[w1, w2], text=text, why=bad)
+                    break
+
     # a very long capture (the correspondence keeps values small because the model is quadratic): one line of > 1 MB
     # with quotes, backslashes, control bytes and non-ASCII; {#} must stay valid and decode to the line
     unit = "abc\"\\\x01\u00e90123456789\t"
